@@ -6,7 +6,7 @@ from checks.c02_server_results import check_outcomes, shrink as shrink2
 ID = 'C07'
 LEVEL = 'exploration'
 NEEDS = ('threads', 'aio')
-QUICK = dict(runs=12000, wall=85)
+QUICK = dict(runs=24000, wall=85)
 THOROUGH = dict(runs=400000, wall=1500)
 RULE = ('scenario = Server/AsyncServer over a thread servlet tree; 2-4 concurrent callers whose deadlines are drawn at the (known, virtual) '
         'service time x {0.5..1.5} and +-1us so that expiry races the gather thread check-and-set; streams closed early with requests '
